@@ -23,7 +23,9 @@ class PROP(c02.PROP):
     theorems = ["C03_undefined_is_error", "C03_arity_is_error", "C03_call_value_and_frame", "C03_callee_scope",
                 "C03_call_independent_of_caller_env", "C03_return_propagates_through_blocks",
                 "C03_return_propagates_through_loops", "C03_binding_copies_values"]
-    prop_targets = ["theories/Props/C03.vo"]
+    prop_targets = ["theories/Props/C03.vo", "theories/Props/C02.vo"]
+    allowed_axioms = ()
+    theorems_extra = ["C02_refine"]
     quick_n = 700
     weights = dict(trace=0.25, err=0.15, lists=0.15, calls=0.9, ctl=0.4)
     rule = ("random programs with up to ~4 procedures of 0-3 parameters (parameter / local / global name collisions in both directions), "
